@@ -58,6 +58,9 @@ const STORED_OVERHEAD: usize = 64;
 /// One input: encrypt, check the chunks, then fetch + decrypt through the real client for every
 /// answer order within the deviation bound.
 fn one_input(run: &Run, len: usize, pat: usize, full_orders_up_to: usize, tot: &Totals) {
+    if mc_core::budget_spent() {
+        return;
+    }
     let data = Bytes::from(pattern(len, pat));
     let pat_name = ["zeros", "counter", "xorshift"][pat];
     let desc = json!({"len": len, "pattern": pat_name, "max_chunk_size": *self_encryption::MAX_CHUNK_SIZE});
@@ -287,7 +290,9 @@ pub fn main(tier: Option<&str>) {
         run.case(format!("small-chunk-build-input-{i}").as_bytes(), i < nontrivial);
     }
     run.extra("small_chunk_build", summary.clone());
-    if summary["multi_level_fetches"].as_u64().unwrap_or(0) == 0 {
+    let child_violations = summary["violations"].as_array().map(|a| a.len()).unwrap_or(0);
+    // (a run that wound down early because of violations has not reached the multi-level inputs: that is a verdict, not vacuity)
+    if summary["multi_level_fetches"].as_u64().unwrap_or(0) == 0 && child_violations == 0 {
         run.machinery_error("no multi-level data map was exercised in the small-chunk build: the sweep would be vacuous for that clause");
     }
     for v in summary["violations"].as_array().cloned().unwrap_or_default() {
